@@ -31,6 +31,25 @@ def main():
     assert not e1.violations and not e2.violations
     print("selftest ok: replay deterministic; reduction cross-check cached=%d execs uncached=%d execs, same %d outcome(s)" % (
         e1.stats.executions, e2.stats.executions, len(e1.stats.outcomes)))
+    # 3. partial-order reduction for the environment peer (C13/C14): with and without it, the same stall signatures
+    #    and the same requester-visible outcomes (1 requester + background thread, preemption bound 2)
+    from checks import c13_replies as c13
+    c13.FULL_WATCH[0] = False
+    c13.prepare()
+    sigs = {}
+    outs = {}
+    for por in (("stream.poll",), None):
+        c13.POR_AT = por
+        run = c13.adapt(c13.make_run(1, 1, True, stop_at_stall=True), "C14")
+        ex = explore.Explorer(run, bound=2, stop_on_violation=False, max_execs=60000)
+        ex.explore()
+        assert not ex.stats.caps, ex.stats.caps
+        sigs[por] = set(v[0] for v in ex.violations)
+        outs[por] = set((k[0], k[1]) for k in ex.stats.outcomes)
+    c13.POR_AT = ("stream.poll",)
+    assert sigs[("stream.poll",)] == sigs[None], sigs
+    assert outs[("stream.poll",)] == outs[None], outs
+    print("selftest ok: peer partial-order reduction preserves stall signatures %r and outcomes" % (sorted(sigs[None]),))
     return 0
 
 
